@@ -849,8 +849,70 @@ func ruleMatchAck(e *Engine, r *Report, tbl *HandlerTable) {
 	remoteT := e.Named("internal/raft", "remote")
 	n := 0
 	// direct stores: inside methods of remote, or the leader's own slot
+	// a fresh remote starts at match 0 - nothing is acknowledged yet - except the replica's own
+	// slot, which starts at its own last index; a constructor that takes the initial match as a
+	// parameter is checked at its call sites
+	zero := func(v ssa.Value) bool {
+		c, ok := stripConv(v).(*ssa.Const)
+		return ok && (c.Value == nil || c.Value.ExactString() == "0")
+	}
+	ownSlot := func(at ssa.Instruction) bool {
+		ok, _ := e.guardedOnAllPaths(at, reqCmp("", "==", anyV(), fieldV(replicaID)))
+		return ok
+	}
+	var initOK func(v ssa.Value, at ssa.Instruction, d int) bool
+	initOK = func(v ssa.Value, at ssa.Instruction, d int) bool {
+		if zero(v) {
+			return true
+		}
+		if d > 2 {
+			return false
+		}
+		if ph, ok := stripConv(v).(*ssa.Phi); ok {
+			for i, ed := range ph.Edges {
+				if zero(ed) {
+					continue
+				}
+				pred := ph.Block().Preds[i]
+				if len(pred.Instrs) == 0 || !ownSlot(pred.Instrs[len(pred.Instrs)-1]) {
+					return false
+				}
+				if !e.dependsOn(ed, e.callV(lastIndex), 0) {
+					return false
+				}
+			}
+			return true
+		}
+		if pr, ok := stripConv(v).(*ssa.Parameter); ok {
+			fn := pr.Parent()
+			idx := -1
+			for i, q := range fn.Params {
+				if q == pr {
+					idx = i
+				}
+			}
+			sites := e.CallerSites(fn)
+			if idx < 0 || len(sites) == 0 {
+				return false
+			}
+			for _, cs := range sites {
+				if !e.IsLive(outermostFn(cs.Parent())) {
+					continue
+				}
+				args := cs.Common().Args
+				if idx >= len(args) || !initOK(args[idx], cs.(ssa.Instruction), d+1) {
+					return false
+				}
+			}
+			return true
+		}
+		return ownSlot(at) && e.dependsOn(v, e.callV(lastIndex), 0)
+	}
 	for _, w := range e.FieldWrites(match) {
 		if w.Kind == "init" {
+			n++
+			r.check(initOK(w.Val, w.Instr, 0), "WMC-match-ack", "a new remote built in "+fname(w.Fn)+" starts with match 0 (own slot: own last index)", e.ipos(w.Instr),
+				"initial match is 0 at every construction / call site, or the replica's own slot", "a progress record is created with a non-zero match for another replica (e.g. from its optimistic next cursor): the leader counts entries that replica never acknowledged towards the commit quorum")
 			continue
 		}
 		n++
